@@ -498,8 +498,9 @@ def _campaign(mod, prop_id, tier, seed, t0):
   extra = getattr(mod, 'evidence_extra', None)
   if extra:
     ev['coverage'].update(extra(tier))
-  os.makedirs(os.path.join(VERIF, 'evidence'), exist_ok=True)
-  ev_path = os.path.join(VERIF, 'evidence', f'{prop_id}.json')
+  ev_dir = os.environ.get('VERIF_EVIDENCE_DIR') or os.path.join(VERIF, 'evidence')
+  os.makedirs(ev_dir, exist_ok=True)
+  ev_path = os.path.join(ev_dir, f'{prop_id}.json')
   with open(ev_path, 'w') as f:
     json.dump(ev, f, indent=1, default=repr)
 
